@@ -7,7 +7,13 @@ package codecparams
 
 // Marshal is used by the muxer as an opaque pure function of the codec (no contract on its text yet:
 // the parameter-set parsers it calls are in mediacommon, outside the verified code).
+// RFC 6381 shapes: {N} a decimal integer, {Z} a decimal integer left-padded with zeros
+//@ regex N /-?[0-9]+/
+//@ regex Z /0*-?[0-9]+/
+
 //@ func Marshal
-//@   props C16
+//@   props C09 C16
 //@   nosafety
+//@   ensures result == "" || hasprefix(result, "av01.") || hasprefix(result, "vp09.") || hasprefix(result, "hvc1.") || hasprefix(result, "avc1.") || hasprefix(result, "mp4a.40.") || result == "opus"
+//@   ensures [C16] result in /(av01\.{N}\.{Z}[MH]\.{Z}\.[01]\.[01][01]{N}\.({Z}\.{Z}\.{Z}\.[01]|01\.01\.01\.0)|vp09\.{Z}\.10\.{Z}|hvc1\.(.|\n)*|avc1\.(.|\n)*|opus|mp4a\.40\.{N})?/
 //@ end
